@@ -48,7 +48,19 @@ impl Topology {
         if *radius < 0.0 || *ndim < 1 || *ntotal < 1 || *index > *ntotal {
             return None;
         }
-        let nedge = f32::ceil((*ntotal as f32).powf(1.0 / *ndim as f32)) as usize;
+        let mut nedge = f32::ceil((*ntotal as f32).powf(1.0 / *ndim as f32)) as usize;
+        // The float root is only an estimate (e.g. 125^(1/3) evaluates to slightly more than 5):
+        // correct it to the smallest edge whose hypercube holds ntotal indices.
+        let holds = |edge: usize| match edge.checked_pow(*ndim as u32) {
+            Some(volume) => volume >= *ntotal,
+            None => true,
+        };
+        while nedge > 1 && holds(nedge - 1) {
+            nedge -= 1;
+        }
+        while !holds(nedge) {
+            nedge += 1;
+        }
         if let Some(dindex) = Topology::decompose_index(index, &nedge, ndim) {
             let mut neighbors = vec![];
             for i in 0..*ntotal {
